@@ -320,9 +320,11 @@ def _check(case, v, tmp):
                 p0.add_string("$unit blen = 3 cm\n" + src)
                 env0 = p0.parse()
             base_before = _snapshot(env0)
-            text = src + "\n# ---- parsed on top of the returned environment ----\n" + body
+            # the later stage also defines a unit of its own: the base environment must not see it
+            body2 = ("$unit later = 5 mm\n" + body) if case["tree"]["cnt"] % 2 == 0 else body
+            text = src + "\n# ---- parsed on top of the returned environment ----\n" + body2
             with DIP(env0, name=f"c17_{next(_uid)}") as p:
-                p.add_string(body)
+                p.add_string(body2)
                 env = p.parse()
         else:
             path = os.path.join(tmp, "remote.dip")
